@@ -119,6 +119,8 @@ def gen_virtual(rng):
 def run(case):
     if case["kind"] == "virtual":
         return run_virtual(case)
+    if case["kind"] == "labels":
+        return rl.run_labels(case, "index")
     lib = CTX.lib
     RLA = lib.RunLengthArray
     dt = np.dtype(case["dtype"])
@@ -360,6 +362,8 @@ def gen_case(rng, tier, kind=None, dtype=None):
 def directed():
     import random
     rng = random.Random(1515)
+    for _ in range(160):
+        yield rl.gen_labels(rng)
     for dtype in gen.DT_ALL:
         for kind in KINDS:
             for _ in range(6):
@@ -444,6 +448,8 @@ def const_case(rng, tier, s, form):
 
 
 def random_case(rng, tier):
+    if rng.random() < 0.04:
+        return rl.gen_labels(rng, 14 if tier == "quick" else 40)
     if rng.random() < 0.06:
         return gen_virtual(rng)
     c = _with_swap(rng, gen_case(rng, tier))
@@ -453,7 +459,7 @@ def random_case(rng, tier):
 
 
 def classify(case, res):
-    if case["kind"] == "virtual":
+    if case["kind"] in ("virtual", "labels"):
         return None
     if case["kind"] == "slice":
         s, L = case["idx"], len(case["vals"])
